@@ -147,6 +147,20 @@ def run(prop, seed, tier):
             ('isar', '<xml><constant name="A"/></xml>', None), ('isar', '<xml><struct name="S"><member type="u8"/></struct></xml>', None),
             ('isar', '<xml><enum name="E"><enum-member name="A" value="1"/><enum-member name="B" value="1"/></enum></xml>', None),
             ('isar', 'not xml at all', None), ('isar', '<xml>', None), ('isar', '', None),
+            # self-referential typedefs (alone, used by a member, used in a size expression), a redefined typedef used as a sizer
+            ('isar', '<xml><typedef name="A" type="A"/></xml>', None),
+            ('isar', '<xml><typedef name="A" type="A"/><struct name="S"><member name="x" type="A"/></struct></xml>', None),
+            ('isar', '<xml><typedef name="A" type="A"/><struct name="S"><member name="x" type="u8"><dimension size="A+0"/></member></struct></xml>', None),
+            ('prophy', 'typedef u32 A; typedef A A; struct S { A n; u8 x<@n>; };\n', None),
+            ('prophy', 'typedef u32 A; typedef A B; typedef B A; struct S { B n; u8 x<@n>; };\n', None),
+            # expressions that end too early, in every place isar takes one; empty type / sizer-type attributes
+            ('isar', '<xml><constant name="A" value="1 +"/></xml>', None),
+            ('isar', '<xml><constant name="A" value="1"/><struct name="S"><member name="x" type="u8"><dimension size="A +"/></member></struct></xml>', None),
+            ('isar', '<xml><enum name="E"><enum-member name="E_A" value="(1"/></enum></xml>', None),
+            ('isar', '<xml><struct name="S"><member name="n" type=""/><member name="a" type="u8"><dimension variableSizeFieldName="@n"/></member></struct></xml>', None),
+            ('isar', '<xml><struct name="S"><member name="a" type="u8"><dimension isVariableSize="true" variableSizeFieldType=""/></member></struct></xml>', None),
+            ('isar', '<xml><message name="S"><member name="a" type="u8"><dimension isVariableSize="true" variableSizeFieldType="" size="3"/></member></message></xml>', None),
+            ('isar', '<xml><union name="U"><member name="a" type="" discriminatorValue="1"/></union></xml>', None),
             ('isar', '<xml><xi:include xmlns:xi="http://www.w3.org/2001/XInclude" href="missing.xml"/></xml>', None),
         ]
         jobs = []
